@@ -80,6 +80,17 @@ func init() {
 			"kind/ptr", "kind/interface", "kind/struct", "nil/ptr", "nil/interface", "nil/slice", "nil/map", "empty/slice", "empty/map", "nil/argument", "stat/avg", "named", "large-containers", "depth>1000", "same-named-distinct-types"},
 		Families: func(c *mon.Config) []mon.Family {
 			return []mon.Family{
+				{Name: "cold-start", N: 1, Serial: true, Run: func(w *mon.W, _ int) {
+					c20Observe(w, nil, 0, "nil")
+					c20Observe(w, 0, 8, "cold")
+					c20Observe(w, "", c20Str, "cold")
+					c20Observe(w, []int8(nil), c20Slice, "cold")
+					c20Observe(w, struct{}{}, 0, "cold")
+					c20Observe(w, uintptr(0), 8, "cold")
+					var e interface{} = (*int)(nil)
+					c20Observe(w, e, c20Ptr, "cold")
+					w.Bucket("cold-start")
+				}},
 				{Name: "scalar-positions", N: len(c20Scalars) * 8, Run: c20ScalarPositions},
 				{Name: "named", N: c.Pick(200, 20000), Run: c20NamedTypes},
 				{Name: "random-types", N: c.Pick(40000, 2500000), Run: c20Random},
